@@ -8,7 +8,7 @@ out = f"/verif/seeded/{sid}"
 os.makedirs(out, exist_ok=True)
 patch = subprocess.run(["git", "-C", wt, "diff", "--", "pygamma_agreement"], capture_output=True, text=True).stdout
 open(f"{out}/patch.diff", "w").write(patch)
-demo = [f for f in os.listdir(wt) if f.startswith("demo_")][0]
+demo = sorted(f for f in os.listdir(wt) if f.startswith("demo_") and f.endswith(".py"))[0]
 shutil.copy(f"{wt}/{demo}", f"{out}/demo.py")
 if os.path.exists(f"{wt}/SEED_REPORT.md"):
     shutil.copy(f"{wt}/SEED_REPORT.md", f"{out}/SEED_REPORT.md")
